@@ -558,6 +558,20 @@ func (h *h1) epochCheck(clause string, live bool) {
 			return
 		}
 	}
+	// every record lies in the epoch the history assigns to its offset (an epoch without an entry is as wrong
+	// as an entry in the wrong place: a follower asking where that epoch ends gets the answer for another one)
+	for _, r := range h.model {
+		at := uint64(0)
+		for _, e := range eps {
+			if e.startOffset <= r.off {
+				at = e.leaderEpoch
+			}
+		}
+		if at != r.epoch {
+			h.fail(clause, clause+"/epoch-missing", "record %d has epoch %d but the history assigns epoch %d to that offset: %s", r.off, r.epoch, at, epochList(eps))
+			return
+		}
+	}
 	for _, r := range h.model {
 		for _, e := range eps {
 			if e.startOffset < r.off && e.leaderEpoch > r.epoch {
